@@ -21,6 +21,7 @@ def gen_schemas(ctx, cfg, label):
 @pipeline
 def c01(ctx: Ctx):
     ctx.assumptions = [
+        "D: spec/MC_C01.tla checks the implementation-shaped model spec/SchemaImpl.tla (visitJSON's phases and early returns) against SchemaSem on the generator's own state space, plus algebraic laws (not/allOf/anyOf/oneOf/enum) and monotonicity; the trace spec also compares every verdict of the code with SchemaImpl (fidelity)",
         "TLC; spec/SchemaSem.tla as the transcription of draft-4/OpenAPI 3.0 keyword semantics (null per the library's documented NullRule)",
         "harness realiser (abstract schema -> OpenAPI JSON -> real loader) guarded by the rs = s round trip judged by TLC",
         "numbers are quarters, strings over a small alphabet incl. one astral rune, five fixed patterns; format/discriminator are outside this oracle (C12)",
@@ -32,11 +33,13 @@ def c01(ctx: Ctx):
         vals = os.path.join(ctx.scratch, "vals.ndjson")
         write_ndjson(vals, [])
     else:
+        # D: implementation-shaped model vs reference semantics, algebraic laws, monotonicity (spec only)
+        ctx.tlc("MC_C01", "MC_C01_%s.cfg" % ctx.tier, label="D SchemaImpl = SchemaSem modulo listed classes; laws", timeout=3000)
         cases, vals = gen_schemas(ctx, "Gen_C01_%s.cfg" % ctx.tier, "F generate schemas (BFS)")
         ctx.exhaustive = True
     ctx.build_driver()
     logp = os.path.join(ctx.scratch, "log.ndjson")
-    ctx.drive(cases, logp, env={"VERIF_VALS": vals})
+    ctx.drive(cases, logp, env={"VERIF_VALS": vals}, shards=8)
     lines = 0
     rng = random.Random(ctx.seed)
     for l in open(logp):
